@@ -84,8 +84,8 @@ def parseIds : Nat → List String → Option (List Str)
 
 /-! ### CLI histories: reuse decision per file and run, with a diagnosis of stale reuse -/
 
-def histWorld : World Str Unit :=
-  { hash := id, analyze := fun _ => [], summary := fun _ => (), wp := fun _ => [],
+def histWorld : World Str Unit Unit :=
+  { hash := id, analyze := fun _ _ => [], summary := fun _ _ => (), wp := fun _ => [], funs := fun _ _ => (), loadRet := fun _ => [],
     enc := Cppcheck.Gen.HashInput.encoding, lk := Cppcheck.Gen.HashInput.lookupKind }
 
 /-- the options of a history are fixed: only the path and the suppression dump vary in toolinfo -/
@@ -139,21 +139,21 @@ def lookupSrc (tbl : List (Str × FileInput)) (slot : Str) : Option FileInput :=
   | [] => none
   | (k, v) :: r => if k = slot then some v else lookupSrc r slot
 
-def histFiles (ft : List FtLine) : BuildDir Str Unit → List (Str × FileInput) → List FileInput → BuildDir Str Unit × List (Str × FileInput) × List String
+def histFiles (ft : List FtLine) : BuildDir Str Unit Unit → List (Str × FileInput) → List FileInput → BuildDir Str Unit Unit × List (Str × FileInput) × List String
   | bd, tbl, [] => (bd, tbl, [])
   | bd, tbl, i :: r =>
     let slot := cacheFile histWorld.lk ft i.path
     let dec : String := match reuse histWorld bd slot i with
       | some _ => "h:" ++ (match lookupSrc tbl slot with | some o => staleClass o i | none => "?")
       | none => (match bd.get slot with | some _ => "m:-" | none => "n:-")
-    let bd1 := (runFile histWorld showAll ft bd i).1
+    let bd1 := (runFile histWorld [] showAll ft bd i).1
     let tbl1 := match reuse histWorld bd slot i with
       | some _ => tbl
       | none => (slot, i) :: tbl
     let (bd2, tbl2, out) := histFiles ft bd1 tbl1 r
     (bd2, tbl2, (toHex slot ++ ":" ++ dec) :: out)
 
-def histRuns : BuildDir Str Unit → List (Str × FileInput) → List (List FileInput) → List String
+def histRuns : BuildDir Str Unit Unit → List (Str × FileInput) → List (List FileInput) → List String
   | _, _, [] => []
   | bd, tbl, fs :: r =>
     let ft := filesTxt (fs.map (·.path))
@@ -217,11 +217,11 @@ def step (line : String) : String :=
     | some cur, some n =>
       match parseIds n rest with
       | some ids =>
-        let W : World Nat Unit := { hash := fun _ => cur, analyze := fun _ => [], summary := fun _ => (), wp := fun _ => [],
-                                    enc := Encoding.legacy, lk := .suffixFirst }
+        let W : World Nat Unit Unit := { hash := fun _ => cur, analyze := fun _ _ => [], summary := fun _ _ => (), wp := fun _ => [],
+                                         funs := fun _ _ => (), loadRet := fun _ => [], enc := Encoding.legacy, lk := .suffixFirst }
         let fs : List Finding := ids.map fun i => { id := i, file := [], line := 0, col := 0, msg := [] }
-        let bd : BuildDir Nat Unit := match stored.toNat? with
-          | some h => [(['s'], { hash := h, findings := fs, summ := () })]
+        let bd : BuildDir Nat Unit Unit := match stored.toNat? with
+          | some h => [(['s'], { hash := h, findings := fs, summ := (), funs := () })]
           | none => []
         match reuse W bd ['s'] default with
         | some e => s!"0 {e.findings.length}"
